@@ -33,7 +33,10 @@ PROFILES = {
 EXTRA = {
     # detection is one of the three ways an episode ends: sessions with the global defender on, several episodes
     "C04": [(0.5, {"bad": 0.01, "leave": 0.02, "outcome_mix": True, "force_env": {"use_global_defender": True},
-                   "attacker_max_steps": [6, 8, 10, 12], "roles": ["Attacker", "Attacker", "Defender"]})],
+                   "attacker_max_steps": [6, 8, 10, 12], "roles": ["Attacker", "Attacker", "Defender"]}),
+            # every role may have its own step limit
+            (0.25, {"bad": 0.01, "leave": 0.02, "defender_max_steps": [1, 2, 3, 4], "attacker_max_steps": [6, 8, 12],
+                    "roles": ["Defender", "Defender", "Attacker"]})],
 }
 # properties whose checks also run the scripted "world-changing agent leaves, idle agent completes the reset" histories
 DIRECTED = {"C01", "C06", "C07", "C10"}
